@@ -24,7 +24,7 @@ func init() {
 			if tier == "quick" {
 				return 384
 			}
-			return 2400
+			return 7200
 		},
 		Run:      runC03,
 		Required: []string{"epochs", "innovations.link", "innovations.node", "reuse.link", "reuse.node", "epochs.parallel"},
